@@ -16,7 +16,22 @@ def register(kind, target):
     KINDS[kind] = target
 
 
+_MEMO = {}
+MEMO_KINDS = {'dfu', 'cli', 'pass_step', 'compress_rule', 'pseudo_effect', 'data_range', 'expr_eval'}
+
+
 def run(ctx, kind, payload, model):
+    """probe-bank replays do not depend on the model: computed once per (kind, payload) and check run"""
+    if kind in MEMO_KINDS:
+        import json
+        key = (kind, json.dumps(payload, sort_keys=True, default=str))
+        if key not in _MEMO:
+            _MEMO[key] = _run(ctx, kind, payload, model)
+        return _MEMO[key]
+    return _run(ctx, kind, payload, model)
+
+
+def _run(ctx, kind, payload, model):
     if kind not in KINDS:
         for mod in ('contracts.relocate', 'contracts.replay_passes', 'contracts.emit', 'contracts.exprs'):
             try:
